@@ -245,7 +245,7 @@ func c10GenBits(t *rapid.T, label string, nbits int, pct int) uint16 {
 	return v
 }
 
-func c10GenNet(t *rapid.T, closedLoop bool) c10Net {
+func c10GenNet(t *rapid.T) c10Net {
 	n := c10Net{}
 	if rapid.IntRange(0, 9).Draw(t, "fixed") < 5 {
 		n.Fixed = true
@@ -320,12 +320,12 @@ func c10GenLoop(t *rapid.T) c10Scenario {
 	np := rapid.IntRange(1, vt.Scale(3, 4)).Draw(t, "npods")
 	state := make([]string, np)
 	for i := 0; i < np; i++ {
-		nets := rapid.SliceOfN(rapid.Custom(func(t *rapid.T) c10Net { return c10GenNet(t, true) }), 1, 2).Draw(t, "nets")
+		nets := rapid.SliceOfN(rapid.Custom(func(t *rapid.T) c10Net { return c10GenNet(t) }), 1, 2).Draw(t, "nets")
 		s.Pods = append(s.Pods, c10PodSpec{Nets: nets})
 		state[i] = "absent"
 	}
-	faulty := rapid.IntRange(0, 2).Draw(t, "faulty") // 0: no faults, 1: few, 2: many
-	pct := []int{0, 6, 20}[faulty]
+	faulty := rapid.IntRange(0, 3).Draw(t, "faulty") // 0,1: no faults, 2: few, 3: many
+	pct := []int{0, 0, 6, 20}[faulty]
 	// rapid's slices average about min+5 elements whatever the maximum is; several
 	// segments give histories of about 20 (thorough: 30) steps that still shrink to nothing
 	var raw []c10RawOp
@@ -511,10 +511,10 @@ func c11GenLeak(t *rapid.T) c10Scenario {
 
 // ---------------------------------------------------------------- tests
 
-func TestVerifC10ClosedLoop(t *testing.T)  { vt.Run(t, c10GenLoop, c10Run) }
-func TestVerifC11ClosedLoop(t *testing.T)  { vt.Run(t, c10GenLoopFixed, c10Run) }
-func TestVerifC11Retention(t *testing.T)   { vt.Run(t, c11GenRetention, c10Run) }
-func TestVerifC11LeakGC(t *testing.T)      { vt.Run(t, c11GenLeak, c10Run) }
+func TestVerifC10ClosedLoop(t *testing.T) { vt.Run(t, c10GenLoop, c10Run) }
+func TestVerifC11ClosedLoop(t *testing.T) { vt.Run(t, c10GenLoopFixed, c10Run) }
+func TestVerifC11Retention(t *testing.T)  { vt.Run(t, c11GenRetention, c10Run) }
+func TestVerifC11LeakGC(t *testing.T)     { vt.Run(t, c11GenLeak, c10Run) }
 
 // c10GenLoopFixed is the closed-loop generator restricted to pods whose first interface
 // has a fixed IP (C11 a: recreation under the same name).
@@ -546,12 +546,11 @@ func TestVerifC10KnownDetachingFromUnbind(t *testing.T) {
 		s, func(c *vt.Ctx, s c10Scenario) { c10RunOpt(c, s, true) })
 }
 
-// Deterministic witness of the rollback finding (guard C10-rollback-stops-at-first-error).
+// Deterministic witness of the rollback finding (guard C10-rollback-stops-at-first-error):
+// two-interface pod, the record Create fails, the delete of the first interface fails.
 func TestVerifC10KnownRollbackStops(t *testing.T) {
 	s := c10Scenario{Cards: 1, Pods: []c10PodSpec{{Nets: []c10Net{{}, {}}}},
-		Ops: []c10Op{{K: "create"}, {K: "rpod", AF: c10AFCreate, CF: c10CFDelete0 | c10CFDelete1}}}
-	_ = s
-	s.Ops[1].CF = c10CFDelete0 // only the first delete fails; the second interface is never tried
+		Ops: []c10Op{{K: "create"}, {K: "rpod", AF: c10AFCreate, CF: c10CFDelete0}}}
 	vt.Witness(t, "C10", c10KnownRollback,
 		"deleteAllENI returns at the first failed delete, so the remaining interfaces created for the pod are not rolled back and exist without a record",
 		s, func(c *vt.Ctx, s c10Scenario) { c10RunOpt(c, s, true) })
